@@ -102,6 +102,7 @@ def run(prog: Program, rep: Report, tier: str):
     rule_family(prog, rep)
     rule_bind(prog, rep)
     rule_access(prog, rep)
+    rule_covariance(prog, rep)
     rule_nan(prog, rep, "C05.nan")
     rule_mix(prog, rep)
     if tier == "thorough":
@@ -247,6 +248,15 @@ def rule_access(prog, rep):
             rep.violated("C05.access", site, k,
                          f"{name}({', '.join(a.lower() for a in argn)}).{acc} reduces to {show(got, 240)}, "
                          f"expected {want[1].lower()}")
+
+
+def rule_covariance(prog, rep):
+    rep.rule("C05.cov", "MultivariateNormal.covariance returns L @ L.T with L the unwrapped Cholesky factor stored in the "
+                        "bijection (constructor: TriangularAffine(loc, cholesky(covariance)), C05.bind)", minimum=1)
+    c = prog.cls(D + "MultivariateNormal")
+    got = Interp(prog).eval_method(c, "covariance", [])
+    want = eval_ref_method(prog, c, "def covariance(self):\n    L = unwrap(self.bijection.triangular)\n    return L @ L.T\n", [])
+    compare(rep, "C05.cov", method_site(prog, c, "covariance"), "MultivariateNormal.covariance", got, want, "covariance")
 
 
 def rule_nan(prog, rep, R):
